@@ -10,7 +10,7 @@ git apply "$patch"
 trap 'cd /repo && git checkout -- . && git clean -fdq' EXIT
 cd /verif
 for p in "$@"; do
-  out=$(VERIF_BUDGET_S=${VERIF_BUDGET_S:-20} ./check $p quick 2>&1); rc=$?
+  out=$(VERIF_EVIDENCE_DIR=/var/tmp/seed-evidence VERIF_REPLAY_DIR=/var/tmp/seed-replays VERIF_BUDGET_S=${VERIF_BUDGET_S:-20} ./check $p quick 2>&1); rc=$?
   echo "--- $p exit=$rc"
   echo "$out" | grep -E "^(violation:|VIOLATION|check: MACHINERY|  )" | head -${LINES_SHOWN:-6}
 done
